@@ -28,7 +28,7 @@ ASSUMPTIONS = ['faults are injected at the open() boundary of the handlelimiter 
                'gzip and the file system are trusted']
 MIN_NONTRIVIAL = {'quick': 400, 'thorough': 20000}
 REQUIRED_MONITORS = ['inj:open_attempts', 'inj:faults_fired', 'hist:writes', 'oracle:files_compared', 'inj:emfile_fired',
-                     'inj:transient_fired', 'inj:permanent_fired', 'reopen_append', 'rlimit:real_emfile_seen', 'split:bams_compared']
+                     'inj:transient_fired', 'inj:permanent_fired', 'reopen_append', 'rlimit:real_emfile_seen', 'split:bams_compared', 'inj:errno:emfile:ENFILE', 'inj:errno:transient:EIO', 'inj:errno:transient:None']
 EXHAUSTIVE = {'quick': False, 'thorough': True}
 SHARD_TIMEOUT = {'quick': 600, 'thorough': 7200}
 
@@ -41,6 +41,7 @@ class Injector:
         self.fired = []           # (attempt, kind, path, live_before)
         self.opens = []           # (attempt, path, mode, ok)
         self.max_live = 0
+        self.errnos_used = set()
 
     def _maybe_fail(self, path, mode):
         n = self.attempt
@@ -55,7 +56,13 @@ class Injector:
         if kind:
             self.fired.append((n, kind, path, self.live))
             self.opens.append((n, path, mode, False))
-            raise OSError(errno.EMFILE, 'Too many open files (injected %s)' % kind, path)
+            # how the failure is reported: a descriptor shortage is EMFILE (per process) or ENFILE (system wide); a transient failure may be
+            # any I/O error - what counts for the property is whether the file can be opened once the other handles are closed
+            code = (self.plan.get('errnos') or {}).get(kind, 'EMFILE')
+            self.errnos_used.add(f'{kind}:{code}')
+            if code is None:
+                raise OSError('open failed (injected %s, no errno)' % kind)
+            raise OSError(getattr(errno, code), os.strerror(getattr(errno, code)) + ' (injected %s)' % kind, path)
         self.opens.append((n, path, mode, True))
 
     def wrap(self, real):
@@ -155,6 +162,8 @@ def decide(acc, seq, settings, plan, inj, hist, raised, contents, err, d):
     acc.count('inj:faults_fired', len(inj.fired))
     for _, kind, _, _ in inj.fired:
         acc.count(f'inj:{kind}_fired')
+    for e in inj.errnos_used:
+        acc.count('inj:errno:' + e)
     acc.count('hist:writes', len(seq))
     reopen = sum(1 for (_, p, mode, ok) in inj.opens if ok and 'a' in mode)
     acc.count('reopen_append', reopen)
@@ -241,7 +250,11 @@ def run_case(case):
                     p['permanent'] = r.choice(files)
                 plans.append(p)
         nontriv = 0
-        for plan in plans:
+        for pi, plan in enumerate(plans):
+            if plan:
+                plan['errnos'] = {'emfile': r.choice(['EMFILE', 'EMFILE', 'ENFILE']),
+                                  'transient': r.choice(['EMFILE', 'EMFILE', 'ENFILE', 'EIO', 'EINTR', 'ENOMEM', 'EAGAIN', None]),
+                                  'permanent': r.choice(['EMFILE', 'EACCES', 'ENOSPC'])}
             with Scratch('c19') as d:
                 inj, hist, raised, contents, err = execute(hl_mod, d, seq, settings['maxHandles'], settings['pruneEvery'], settings['method'], plan)
                 if decide(acc, seq, settings, plan, inj, hist, raised, contents, err, d):
